@@ -445,9 +445,9 @@ def r6_start_once(ctx: Context) -> None:
 
 
 def run(ctx: Context) -> None:
-    r1_who_may_start(ctx)
-    r2_readiness_dominates(ctx)
-    r3_readiness_predicate(ctx)
-    r4_release_discipline(ctx)
-    r5_start_after_release(ctx)
-    r6_start_once(ctx)
+    ctx.isolate(r1_who_may_start)
+    ctx.isolate(r2_readiness_dominates)
+    ctx.isolate(r3_readiness_predicate)
+    ctx.isolate(r4_release_discipline)
+    ctx.isolate(r5_start_after_release)
+    ctx.isolate(r6_start_once)
